@@ -268,7 +268,7 @@ Proof.
     assert (Hr : or_ * or_ <= 2 * (k * k + 1) * (v1r * v1r + v2r * v2r)).
     { unfold or_. destruct m; unfold fr_sub, fr_scale; cbn [fst snd osub omul Ops_R];
         pose proof (Rle_0_sqr (k * v2r - v1r)) as Q; unfold Rsqr in Q; nra. }
-    unfold fr_norm2. cbn [fst snd]. lra. }
+    clearbody ol or_. unfold fr_norm2. cbn [fst snd]. nra. }
   eapply Rle_trans; [exact Hout|].
   unfold Rdiv. rewrite (Rmult_comm (2 * (k * k + 1))), Rmult_assoc, (Rmult_comm (2 * (k * k + 1))), <- Rmult_assoc.
   apply (Rmult_le_reg_l (g * svf_eps k)); [exact Hge|].
